@@ -135,6 +135,7 @@ package car
 //@   end
 //@   closure[1]
 //@     call[append#0] assert appends_this_cid [C15]: ref(arg0) == ref(cids) && len(arg1) == 1 && arg1[0] == block.BlockCID
+//@     ensures one_cid_per_block [C15]: len(cids) == old(len(cids)) + 1
 //@     ensures never_fails [C15]: result == nil
 //@   end
 
